@@ -51,12 +51,12 @@ namespace svmon
   enum ItKind : int
   {
     IT_STREAM_INT = 0, IT_STREAM_VAL, IT_FWD, IT_BIDI, IT_RAND, IT_FWD_INT, IT_RAND_INT, IT_PTR, IT_VEC,
-    IT_MOVE_PTR, IT_SVIT, IT__COUNT
+    IT_MOVE_PTR, IT_SVIT, IT_FWD_VAL, IT_RAND_VAL, IT_PTR_VAL, IT__COUNT
   };
   inline const char *it_name (int k)
   {
     static const char *n[] = { "input<int>", "input<Val>", "forward<T>", "bidi<T>", "random<T>", "forward<int>",
-                               "random<int>", "T*", "vector<T>::it", "move_iterator<T*>", "small_vector<T>::it" };
+                               "random<int>", "T*", "vector<T>::it", "move_iterator<T*>", "small_vector<T>::it", "forward<Val>", "random<Val>", "Val*" };
     return (k >= 0 && k < IT__COUNT) ? n[k] : "?";
   }
   inline bool it_is_stream (int k) { return k == IT_STREAM_INT || k == IT_STREAM_VAL; }
@@ -858,7 +858,7 @@ namespace svmon
     {
       switch (itk)
       {
-        case IT_STREAM_VAL: return feat.from_val;
+        case IT_STREAM_VAL: case IT_FWD_VAL: case IT_RAND_VAL: case IT_PTR_VAL: return feat.from_val;
         case IT_FWD: case IT_BIDI: case IT_RAND: case IT_PTR: case IT_VEC: case IT_SVIT: return feat.copyable;
       }
       return true;
@@ -985,6 +985,7 @@ namespace svmon
             if (op.kind == OP_APPEND_RANGE) op.pos = size;
             op.count = pick_count (rng, c, op.pos, lim);
             op.itk = pick_it (rng);
+            if (op.kind == OP_INSERT_RANGE && (op.itk == IT_FWD_VAL || op.itk == IT_RAND_VAL || op.itk == IT_PTR_VAL)) op.itk = IT_STREAM_VAL;
             if (mode == MODE_RANGE && rng.chance (1, 2)) op.itk = feat.from_val && rng.chance (1, 2) ? IT_STREAM_VAL : IT_STREAM_INT;
             if (mode == MODE_SMALL && it_is_stream (op.itk) && op.kind == OP_INSERT_RANGE && op.count > int (c.N)) continue;
             break;
